@@ -110,8 +110,25 @@ def _convert_func(op: llvm.FuncOp, llvm_module: ir.Module):
                 phi = builder.phi(convert_type(arg.type))
                 val_map[arg] = phi
 
-    # Convert ops in each block
-    for block in op.body.blocks:
+    # Convert ops in each block. Blocks may be laid out in any order as long as
+    # definitions dominate uses, so visit them in reverse post-order of the CFG
+    # (dominators first), followed by the blocks that are unreachable from the entry.
+    post_order: list[Block] = []
+    visited: set[Block] = set()
+    stack: list[tuple[Block, int]] = [(op.body.blocks[0], 0)]
+    visited.add(op.body.blocks[0])
+    while stack:
+        block, idx = stack.pop()
+        successors = block.last_op.successors if block.last_op is not None else ()
+        if idx < len(successors):
+            stack.append((block, idx + 1))
+            if successors[idx] not in visited:
+                visited.add(successors[idx])
+                stack.append((successors[idx], 0))
+        else:
+            post_order.append(block)
+    order = post_order[::-1] + [b for b in op.body.blocks if b not in visited]
+    for block in order:
         builder = ir.IRBuilder(block_map[block])
         # Position after any PHI nodes
         if block_map[block].instructions:
